@@ -321,6 +321,14 @@ impl<const H: usize> Reader<H> {
         offset: u64,
         flushed_offset: u64,
     ) -> Result<Record<'_, H>, ReadError> {
+        // Drop cached bytes if the segment was truncated or a header was replaced (possibly
+        // through another reader sharing this flushed offset) since they were read
+        let generation = self.flushed_offset.generation();
+        if self.read_ahead_buf.generation != generation {
+            self.read_ahead_buf.invalidate();
+            self.read_ahead_buf.generation = generation;
+        }
+
         let record_header_buf =
             self.read_ahead_buf
                 .read(&self.file, offset, RECORD_HEAD_SIZE, flushed_offset)?;
@@ -529,6 +537,8 @@ impl<const H: usize> Reader<H> {
         {
             self.read_ahead_buf.invalidate();
         }
+        // ... and the caches of every other reader sharing this flushed offset
+        self.flushed_offset.invalidate_cached_reads();
 
         // Sync to ensure durability
         self.file.sync_data()?;
@@ -576,6 +586,7 @@ struct ReadAheadBuf {
     offset: u64, // File offset of the buffer start
     pos: usize,  // Current read position in buffer
     valid_len: usize,
+    generation: u64, // FlushedOffset generation the cached bytes belong to
 }
 
 impl ReadAheadBuf {
@@ -585,6 +596,7 @@ impl ReadAheadBuf {
             offset: 0,
             pos: 0,
             valid_len: 0,
+            generation: 0,
         }
     }
 
